@@ -85,4 +85,147 @@ theorem cubicSender_isCwndLimited_model_is_source (s : Sender) (inFlight : Nat) 
   tdiv_norm
   cases s.inSlowStart <;> bool_tie
 
+/-- `Budget(now)` inside the no-wrap range: `now - lastSentTime` is an int64 and the new budget stays below 2^63
+    (beyond it Go's overflow guard substitutes MaxByteCount; the model keeps the guard, see its doc) -/
+theorem pacer_Budget_model_is_source (p : Pacer) (bw : Nat) (now : Int)
+    (hd : -2 ^ 63 ≤ now - p.lastSent ∧ now - p.lastSent < 2 ^ 63)
+    (hs : p.budgetAtLastSent + timeScaledBandwidth bw p.mds (now - p.lastSent).toNat < 2 ^ 63) :
+    ((p.budget bw now : Nat) : Int) = pacer_Budget now bw p.budgetAtLastSent p.lastSent p.mds := by
+  have hw : wrapI64 (now - p.lastSent) = now - p.lastSent := by
+    unfold wrapI64 i64OfU64 u64OfI64; split <;> omega
+  unfold Pacer.budget pacer_Budget
+  rw [hw, c_maxByteCount, ← pacer_maxBurstSize_model_is_source]
+  by_cases h0 : p.lastSent = 0
+  · simp only [h0, if_true]
+  · simp only [h0, if_false]
+    by_cases hpos : now - p.lastSent > 0
+    · have e : (now - p.lastSent) = (((now - p.lastSent).toNat : Nat) : Int) := by omega
+      have t := pacer_timeScaledBandwidth_model_is_source bw p.mds (now - p.lastSent).toNat
+      rw [← e] at t
+      simp only [hpos, if_true, ← t]
+      tie_arith
+    · simp only [hpos, if_false]
+      tie_arith
+
+/-- the unsigned conversion `uint64(delta.Nanoseconds())` in `Budget` is applied to a positive delta only -/
+theorem pacer_Budget_no_wrap (now bw budget last mds : Int) : pacer_Budget_safe now bw budget last mds := by
+  unfold pacer_Budget_safe; omega
+
+/-- `TimeUntilSend()`: `none` of the model is the Go panic (bandwidth 0); otherwise equal inside the no-wrap range -/
+theorem pacer_TimeUntilSend_model_is_source (p : Pacer) (bw : Nat)
+    (h1 : nsPerSecond * (p.mds - p.budgetAtLastSent) < 2 ^ 64)
+    (h2 : nsPerSecond * (p.mds - p.budgetAtLastSent) / bw + 1 < 2 ^ 63)
+    (h3 : -2 ^ 63 ≤ p.lastSent ∧ p.lastSent + Max.max minPacingDelay ((nsPerSecond * (p.mds - p.budgetAtLastSent) / bw + 1 : Nat) : Int) < 2 ^ 63) :
+    p.timeUntilSend bw =
+      if pacer_TimeUntilSend_panics bw p.budgetAtLastSent p.lastSent p.mds then none
+      else some (pacer_TimeUntilSend bw p.budgetAtLastSent p.lastSent p.mds) := by
+  unfold Pacer.timeUntilSend pacer_TimeUntilSend pacer_TimeUntilSend_panics
+  rw [c_nsPerSecond, c_minPacingDelay] at *
+  by_cases hb : p.budgetAtLastSent ≥ p.mds
+  · have hb' : (p.budgetAtLastSent : Int) ≥ p.mds := by omega
+    simp [hb, hb']
+  · have hb' : ¬ (p.budgetAtLastSent : Int) ≥ p.mds := by omega
+    simp only [hb, hb', if_false]
+    by_cases hz : bw = 0
+    · have hz' : (bw : Int) = 0 := by omega
+      simp [hz, hz']
+    · have hz' : ¬ (bw : Int) = 0 := by omega
+      have hw : wrapU64 (1000000000 * (p.mds - p.budgetAtLastSent)) = 1000000000 * (p.mds - p.budgetAtLastSent) := by
+        unfold wrapU64; omega
+      have e : (1000000000 : Int) * ((p.mds : Int) - (p.budgetAtLastSent : Int)) = ((1000000000 * (p.mds - p.budgetAtLastSent) : Nat) : Int) := by
+        omega
+      simp only [hz, hz', if_false, hw, e, Bool.false_eq_true]
+      generalize 1000000000 * (p.mds - p.budgetAtLastSent) = D at *
+      have q1 : Int.tdiv (D : Int) (bw : Int) = ((D / bw : Nat) : Int) := by simp
+      have q2 : Int.tmod (D : Int) (bw : Int) = ((D % bw : Nat) : Int) := by
+        rw [Int.tmod_eq_emod_of_nonneg (Int.natCast_nonneg _)]; exact Int.ofNat_mod_ofNat D bw
+      rw [q1, q2]
+      clear q1 q2
+      generalize D / bw = Q at *
+      generalize D % bw = R at *
+      congr 1
+      by_cases hm : R > 0
+      · have hm' : ((R : Nat) : Int) > 0 := by omega
+        have hwu : wrapU64 (Q + 1) = Q + 1 := by unfold wrapU64; omega
+        simp only [hm, hm', if_true, hwu]
+        have hi : i64OfU64 (Q + 1) = ((Q + 1 : Nat) : Int) := by unfold i64OfU64; split <;> omega
+        rw [hi]
+        have hwi : ∀ x : Int, -2 ^ 63 ≤ x → x < 2 ^ 63 → wrapI64 x = x := by
+          intro x a b; unfold wrapI64 i64OfU64 u64OfI64; split <;> omega
+        rw [hwi] <;> omega
+      · have hm' : ¬ ((R : Nat) : Int) > 0 := by omega
+        simp only [hm, hm', if_false]
+        have hi : i64OfU64 Q = ((Q : Nat) : Int) := by unfold i64OfU64; split <;> omega
+        rw [hi]
+        have hwi : ∀ x : Int, -2 ^ 63 ≤ x → x < 2 ^ 63 → wrapI64 x = x := by
+          intro x a b; unfold wrapI64 i64OfU64 u64OfI64; split <;> omega
+        rw [hwi] <;> omega
+
+/-- `SentPacket(sendTime, size)`: both written fields -/
+theorem pacer_SentPacket_model_is_source (p : Pacer) (bw : Nat) (t : Int) (size : Nat)
+    (hd : -2 ^ 63 ≤ t - p.lastSent ∧ t - p.lastSent < 2 ^ 63)
+    (hs : p.budgetAtLastSent + timeScaledBandwidth bw p.mds (t - p.lastSent).toNat < 2 ^ 63) :
+    (((p.sentPacket bw t size).budgetAtLastSent : Nat) : Int) =
+        pacer_SentPacket_set_budgetAtLastSent t size bw p.budgetAtLastSent p.lastSent p.mds ∧
+    (p.sentPacket bw t size).lastSent = pacer_SentPacket_set_lastSentTime t size bw p.budgetAtLastSent p.lastSent p.mds := by
+  have hb := pacer_Budget_model_is_source p bw t hd hs
+  unfold Pacer.sentPacket pacer_SentPacket_set_budgetAtLastSent pacer_SentPacket_set_lastSentTime
+  simp only [← hb]
+  constructor
+  · tie_arith
+  · trivial
+
+/-- `BandwidthEstimate()` for a non-negative smoothed RTT, inside the uint64 range -/
+theorem cubicSender_BandwidthEstimate_model_is_source (cwnd : Nat) (srtt : Int) (h0 : 0 ≤ srtt) (h63 : srtt < 2 ^ 63)
+    (h1 : cwnd * nsPerSecond < 2 ^ 64)
+    (h2 : cwnd * nsPerSecond / (if srtt = 0 then timerGranularity else srtt).toNat * bytesPerSecond < 2 ^ 64) :
+    ((bandwidthEstimate cwnd srtt : Nat) : Int) = cubicSender_BandwidthEstimate cwnd srtt ∧
+    cubicSender_BandwidthEstimate_panics cwnd srtt = false := by
+  unfold bandwidthEstimate cubicSender_BandwidthEstimate cubicSender_BandwidthEstimate_panics BandwidthFromDelta
+    BandwidthFromDelta_panics
+  rw [c_nsPerSecond, c_bytesPerSecond, c_timerGranularity] at *
+  have hc : wrapU64 cwnd = cwnd := by unfold wrapU64; omega
+  have hc2 : wrapU64 (cwnd * 1000000000) = cwnd * 1000000000 := by unfold wrapU64; omega
+  simp only [hc, hc2]
+  generalize hS : (if srtt = 0 then (1000000 : Int) else srtt) = S at *
+  have hSpos : 0 < S := by subst hS; split <;> omega
+  have hu : u64OfI64 S = S.toNat := by unfold u64OfI64; omega
+  have hSn : S = ((S.toNat : Nat) : Int) := by omega
+  rw [hu]
+  generalize S.toNat = n at *
+  subst hSn
+  have q : Int.tdiv ((cwnd : Int) * 1000000000) (n : Int) = ((cwnd * 1000000000 / n : Nat) : Int) := by
+    have : ((cwnd : Int) * 1000000000) = ((cwnd * 1000000000 : Nat) : Int) := by omega
+    rw [this, Int.tdiv_eq_ediv_of_nonneg (Int.natCast_nonneg _)]; exact (Int.natCast_ediv _ _).symm
+  rw [q]
+  generalize cwnd * 1000000000 / n = Q at *
+  have hq : wrapU64 (Q * 8) = Q * 8 := by unfold wrapU64; omega
+  rw [hq]
+  have hn : ¬ (n : Int) = 0 := by omega
+  have hn' : ¬ n = 0 := by omega
+  simp [hn, hn']
+
+/-- the Reno branch of `maybeIncreaseCwnd`: both written fields and the panic (division by a zero datagram size) -/
+theorem cubicSender_maybeIncreaseCwnd_model_is_source (s : Sender) (prior : Nat) (hn : s.numAcked + 1 < 2 ^ 64) :
+    (((s.maybeIncreaseCwnd prior).1.cwnd : Nat) : Int) =
+        cubicSender_maybeIncreaseCwnd_set_congestionWindow prior s.cwnd s.mds s.numAcked s.ssthresh ∧
+    (((s.maybeIncreaseCwnd prior).1.numAcked : Nat) : Int) =
+        cubicSender_maybeIncreaseCwnd_set_numAckedPackets prior s.cwnd s.mds s.numAcked s.ssthresh ∧
+    ((s.maybeIncreaseCwnd prior).2 = Grow.panic ↔
+        cubicSender_maybeIncreaseCwnd_panics prior s.cwnd s.mds s.numAcked s.ssthresh = true) := by
+  have hw : wrapU64 (s.numAcked + 1) = s.numAcked + 1 := by unfold wrapU64; omega
+  have q : Int.tdiv (s.cwnd : Int) (s.mds : Int) = ((s.cwnd / s.mds : Nat) : Int) := by
+    rw [Int.tdiv_eq_ediv_of_nonneg (Int.natCast_nonneg _)]; exact (Int.natCast_ediv _ _).symm
+  unfold Sender.maybeIncreaseCwnd cubicSender_maybeIncreaseCwnd_set_congestionWindow
+    cubicSender_maybeIncreaseCwnd_set_numAckedPackets cubicSender_maybeIncreaseCwnd_panics
+    cubicSender_maxCongestionWindow Sender.maxCwnd
+  rw [← cubicSender_isCwndLimited_model_is_source, ← cubicSender_InSlowStart_model_is_source, c_maxCwndPackets, q]
+  simp only [hw]
+  generalize s.cwnd / s.mds = Q
+  cases s.isCwndLimited prior <;> cases s.inSlowStart <;>
+    simp only [Bool.not_true, Bool.not_false, Bool.false_eq_true, if_true, if_false, not_true_eq_false, not_false_eq_true,
+      true_and, and_true, reduceCtorEq, false_iff, ne_eq] <;>
+    (try trivial) <;>
+    (refine ⟨?_, ?_, ?_⟩ <;> tie_arith)
+
 end Uquic.Props.TransCong
